@@ -102,15 +102,25 @@ func runC42(c *Ctx) {
 			for b := range backEdges(f) {
 				cut[b] = true
 			}
-			okW = !reach([]*ssa.BasicBlock{h}, cut)[app.Block()] && precedes(app, k[0])
-			// direct: the match-true edge leads to the append's block
-			direct := false
+			// appended only for matching lines …
+			okW = !reach([]*ssa.BasicBlock{h}, cut)[app.Block()]
+			// … and for every matching line that does not end the search: no
+			// path from the match edge to the next iteration avoids the append
+			var starts []*ssa.BasicBlock
 			for _, e := range yes {
-				if e.to() == app.Block() {
-					direct = true
+				starts = append(starts, e.to())
+			}
+			r := reachAvoiding(starts, nil, map[*ssa.BasicBlock]bool{app.Block(): true})
+			for b := range backEdges(f) {
+				if r[b.from] {
+					okW = false
 				}
 			}
-			okW = okW && direct
+			for _, ret := range returnsOf(f) {
+				if r[ret.Block()] && errNilness(retVal(ret, 0), ret.Block(), 0) != definitelyNil && !isNilConst(retVal(ret, 0)) {
+					okW = false
+				}
+			}
 		}
 		c.check(okW, "C42.want-lines", "(*hostKeyDB).checkAddr", f, "KeyError.Want collects exactly the lines whose patterns match", "KeyError.Want does not list exactly the matching lines")
 	}
